@@ -3,6 +3,9 @@ import AcraModel.Wire.PgRow
 import AcraModel.Wire.MysqlRow
 import AcraModel.Wire.Bytea
 import AcraModel.Wire.PgBind
+import AcraModel.Wire.MysqlColDef
+import AcraModel.Wire.MysqlExecute
+import AcraModel.Wire.PgDescribe
 /-! Driver ops for C12 (wire formats). -/
 namespace Driver.C12
 open AcraModel AcraModel.Wire
@@ -82,7 +85,107 @@ def pgRead (mode : String) (s : Bytes) : Option (Out (Pg.Packet × Bytes)) :=
   | "db" => some (Pg.readDb s)
   | _ => none
 
+
+/-! ### column definitions, COM_STMT_EXECUTE, RowDescription (deepening) -/
+
+/-- data_type of a column setting → MySQL type code (`mapEncryptedTypeToField`; the table itself belongs to C19) -/
+def myDeclaredType : String → Option Nat
+  | "int32" => some 3 | "int64" => some 8 | "str" => some 254 | "bytes" => some 252 | _ => none
+
+/-- data_type of a column setting → PostgreSQL type OID (`mapEncryptedTypeToOID`) -/
+def pgDeclaredOid : String → Option Nat
+  | "int32" => some 23 | "int64" => some 20 | "str" => some 25 | "bytes" => some 17 | _ => none
+
+def myHeader (n seq : Nat) : Bytes := leBytes 3 n ++ [UInt8.ofNat (seq % 256)]
+
+/-- the harness rewrites the column `c` of table `t` -/
+def isTC (f : My.ColDef) : Bool := f.table == some [116] && f.name == some [99]
+
+def isNaNBits (w : Nat) (b : Bytes) : Bool :=
+  let v := leVal b
+  if w = 4 then (v / 2^23) % 256 = 255 ∧ v % 2^23 ≠ 0
+  else (v / 2^52) % 2048 = 2047 ∧ v % 2^52 ≠ 0
+
+/-- executable stand-in for strconv's float formatting/parsing: finite values and infinities come back with the
+same bits, every NaN as Go's canonical NaN; the text itself is never shown to the harness -/
+def floatStandIn : My.FloatOps where
+  fmt := fun w b => if isNaNBits w b then [78, 97, 78] else 70 :: b
+  parse := fun w s =>
+    match s with
+    | [78, 97, 78] => some (if w = 4 then [0, 0, 0xc0, 0x7f] else [1, 0, 0, 0, 0, 0, 0xf8, 0x7f])
+    | 70 :: b => if b.length = w then some b else none
+    | _ => none
+
+def showOpt (v : Option Bytes) : String := match v with | none => "n" | some b => hexOf b
+
+def parseItems (f : String → Option Nat) (s : String) : Option (Option (List (Option Nat))) :=
+  if s = "none" then some none else some (some ((splitList s).map f))
+
+def showFields (fs : List Pg.FieldDesc) : String :=
+  if fs.isEmpty then "_" else ";".intercalate (fs.map fun f => s!"{hexOf f.name}:{",".intercalate (f.members.map toString)}")
+
+def handle2 (op : String) (args : List String) : Option String :=
+  match op, args with
+  | "my.coldef", dt :: seq :: payload :: rest => do
+      let seq ← seq.toNat?
+      let payload ← ofHex payload
+      let maria := rest == ["1"]
+      let r : Out Bytes := do
+        let f ← My.parseResultField ⟨myHeader payload.length seq, payload⟩ maria
+        let f' := if isTC f then My.retype f (myDeclaredType dt) else f
+        pure f'.dump
+      pure (r.render hexOf)
+  | "my.coldef.fields", [maria, payload] => do
+      let payload ← ofHex payload
+      pure ((My.parseResultField ⟨[0, 0, 0, 0], payload⟩ (maria == "1")).render fun f =>
+        s!"{showOpt f.schema} {showOpt f.table} {showOpt f.orgTable} {showOpt f.name} {showOpt f.orgName} {hexOf f.extInfo} {f.charset} {f.columnLength} {f.typ} {f.flag} {f.decimal} {f.defaultLen} {showOpt f.defaultValue}")
+  | "my.execute", [n, trs, seq, payload] => do
+      let n ← n.toNat?
+      let trs ← parseTrs trs
+      let seq ← seq.toNat?
+      let payload ← ofHex payload
+      pure (match My.rewriteExecute floatStandIn (applyTrs trs) ⟨myHeader payload.length seq, payload⟩ n with
+        | .ok none => "nil-values"
+        | .ok (some p) => "ok " ++ hexOf (My.dump p)
+        | .err => "err"
+        | .panic => "panic")
+  | "my.execute.params", [n, payload] => do
+      let n ← n.toNat?
+      let payload ← ofHex payload
+      pure (match My.getBindParameters floatStandIn payload n with
+        | .ok none => "nil-values"
+        | .ok (some vs) => "ok " ++ (if vs.isEmpty then "_" else ",".intercalate (vs.map fun v =>
+            s!"{v.paramType}:{if v.paramType = 4 ∨ v.paramType = 5 then (if v.data.isSome then "f" else "n") else showOpt v.data}"))
+        | .err => "err"
+        | .panic => "panic")
+  | "pg.rowdesc", [items, s] => do
+      let items ← parseItems pgDeclaredOid items
+      let s ← ofHex s
+      let r : Out Bytes := do
+        let (p, _) ← Pg.readDb s
+        pure (Pg.marshal (Pg.handleRowDescription p items))
+      pure (r.render hexOf)
+  | "pg.paramdesc", [items, s] => do
+      let items ← parseItems pgDeclaredOid items
+      let s ← ofHex s
+      let r : Out Bytes := do
+        let (p, _) ← Pg.readDb s
+        pure (Pg.marshal (Pg.handleParameterDescription p items))
+      pure (r.render hexOf)
+  | "pg.rowdesc.dec", [b] => do
+      let b ← ofHex b
+      pure (match Pg.decodeRowDesc b with | some fs => "some " ++ showFields fs | none => "none")
+  | "pg.paramdesc.dec", [b] => do
+      let b ← ofHex b
+      pure (match Pg.decodeParamDesc b with
+        | some os => "some " ++ (if os.isEmpty then "_" else ",".intercalate (os.map toString))
+        | none => "none")
+  | _, _ => none
+
 def handle (op : String) (args : List String) : Option String :=
+  match handle2 op args with
+  | some r => some r
+  | none =>
   match op, args with
   | "lenenc.int", [d] => do
       let d ← ofHex d
